@@ -233,7 +233,7 @@ fn worker(args: &[String]) -> i32 {
         let _ = std::fs::write(out.with_extension("cur"), run.to_string());
         let mut r = Rng::new(sub);
         let tiny = args.iter().any(|a| a == "--tiny");
-        let case = if tiny { props_env::gen_tiny(&mut r) } else { props::gen_case(&prop, &mut r, tier) };
+        let case = if tiny { props_env::gen_tiny(&mut r) } else { props::gen_case_indexed(&prop, &mut r, tier, run) };
         let case = if cfg!(miri) || !cfg!(feature = "zstd") || std::env::var_os("VERIF_SMALL").is_some() { adapt_small(case, cfg!(miri) || std::env::var_os("VERIF_SMALL").is_some()) } else { case };
         let t_run = Instant::now();
         let ev0 = st.evaluations;
@@ -487,7 +487,7 @@ fn check(args: &[String]) -> i32 {
                     Some(run) => {
                         let sub = sub_seed(master, &prop, run);
                         let mut r = Rng::new(sub);
-                        let case = props::gen_case(&prop, &mut r, tier);
+                        let case = props::gen_case_indexed(&prop, &mut r, tier, run);
                         let dir = verif_dir().join("replays");
                         let _ = std::fs::create_dir_all(&dir);
                         let path = dir.join(format!("{}-{}-{}.json", prop, master, run));
@@ -628,6 +628,23 @@ fn check(args: &[String]) -> i32 {
         "C13" => "exhaustive over truncation lengths and single-byte trailer corruptions for each generated file; files themselves are sampled",
         _ => "sampled (seeded search), not exhaustive",
     };
+    // summaries of instrumented builds (C17 thorough): embedded as measured by those runs
+    let mut instrumented = serde_json::Map::new();
+    if let Ok(list) = std::env::var("VERIF_EXTRA_EVIDENCE") {
+        for path in list.split(':') {
+            if let Ok(txt) = std::fs::read_to_string(path) {
+                if let Ok(v) = serde_json::from_str::<serde_json::Value>(&txt) {
+                    let name = if path.contains("asan") { "address_sanitizer_leak_sanitizer" } else { "miri_tree_borrows_tiny_generator" };
+                    let summary = if path.contains("asan") {
+                        json!({"runs": v["coverage"]["simulated_runs"], "violations": v["violations"], "wall_s": v["wall_s"], "fired": v["coverage"]["faults_and_schedule_events_fired"], "probes": v["coverage"]["rare_condition_probes"]})
+                    } else {
+                        json!({"runs": v["runs"], "violations": v["violations"].as_array().map(|a| a.len()), "wall_s": v["wall_s"], "public_calls": v["public_calls"]})
+                    };
+                    instrumented.insert(name.to_string(), summary);
+                }
+            }
+        }
+    }
     let evidence = json!({
         "property_id": prop,
         "tier": tier_s,
@@ -662,6 +679,7 @@ fn check(args: &[String]) -> i32 {
                 "stub": ["disk: SimFile", "chunk storage: SimFs", "merge functions: SimMerge", "allocator wrapper: VerifAlloc"]
             },
             "known_findings_hit": known_hits,
+            "instrumented_builds": instrumented,
             "warnings": warnings,
             "workers": jobs,
         },
